@@ -148,7 +148,8 @@ def info(tier):
         "domains checked on every element; quick runs a seed-rotated third of the method axis per cell; distinct = canonical "
         "(problem, method) hashes",
         "required_cells": [f"route:{r}" for r in ROUTES] + [f"method:{m}" for m in METHODS] + [f"shape:{s}" for s in SHAPES]
-        + ["domain:integer", "domain:binary", "strict-raises", "warning-names", "relaxation-equals-twin", "binary-bounds", "view-domain"],
+        + ["domain:integer", "domain:binary", "strict-raises", "warning-names", "relaxation-equals-twin", "binary-bounds", "view-domain",
+                             "repeat:strict-after-solve", "repeat:warning-after-solve"],
         "assumptions": ["the relaxation twin is the same recipe with domain=continuous (binary -> [0,1]) solved in the twin process with the same method"],
     }
 
@@ -249,6 +250,28 @@ def run_cell(rec, seams, twin, route, domain, shape, method, nonlinear, odd):
         got_names = split_names(m.group(1)) if m else []
         if sorted(got_names) != sorted(Dset):
             bad("warning-names-wrong-variables", got=got_names, want=Dset)
+    # the same problem object again, now with warm solver caches: integrality must still not be relaxed silently
+    seams.reset()
+    rec.cmp(1, "repeat:strict-after-solve")
+    try:
+        with warnings.catch_warnings():
+            warnings.simplefilter("ignore")
+            P.solve(method=method, strict=True, **kw)
+        bad("strict-did-not-raise-on-second-solve")
+    except IntegerVariableError:
+        if seams.n_calls:
+            bad("solver-entered-before-strict-error-on-second-solve", calls=seams.n_calls)
+    except Exception as ex:
+        bad("strict-raises-other-on-second-solve:" + type(ex).__name__, error=repr(ex)[:200])
+    try:
+        with warnings.catch_warnings(record=True) as wl2:
+            warnings.simplefilter("always")
+            P.solve(method=method, **kw)
+        rec.cmp(1, "repeat:warning-after-solve")
+        if not [w for w in wl2 if issubclass(w.category, UserWarning) and "integer/binary" in str(w.message)]:
+            bad("no-relaxation-warning-on-second-solve")
+    except Exception as ex:
+        bad("second-non-strict-solve-raises:" + type(ex).__name__, error=repr(ex)[:200])
     # twin relaxation
     rel_decls = copy.deepcopy(prob["decls"])
     for d in rel_decls:
